@@ -153,7 +153,8 @@ class SimEnv:
                 continue
             fp = f.get("path")
             if fp is not None and not (fp == rel or (f.get("base") and os.path.basename(rel) == fp)
-                                       or (f.get("suffix") and rel.endswith(fp))):
+                                       or (f.get("suffix") and rel.endswith(fp))
+                                       or (f.get("contains") and fp in rel)):
                 continue
             if f.get("op") is not None and f["op"] != self.cur_op:
                 continue
